@@ -9,13 +9,10 @@ package irinterp
 
 import (
 	"fmt"
-	"go/ast"
 	"go/constant"
-	"go/token"
 	"go/types"
 	"math"
 	"strings"
-	"unicode/utf8"
 
 	"honnef.co/go/tools/go/ir"
 )
